@@ -125,7 +125,7 @@ def _term(S, t, bb):
 
 
 class Block:
-    __slots__ = ('stmts', 'term', 'cleanup')
+    __slots__ = ('stmts', 'term', 'cleanup', 'owner', 'stack', 'inlined_call')
 
 
 class Body:
@@ -278,8 +278,39 @@ class Body:
                 yield (i, s)
 
     def reach(self, starts, removed=frozenset(), stop=frozenset()):
-        """Blocks reachable from `starts` in the success-path CFG minus `removed` edges;
-        blocks in `stop` are reached but not expanded."""
+        """Blocks reachable from `starts` in the success-path CFG minus `removed` edges; blocks in `stop` are
+        reached but not expanded.  Path-sensitive in ONE tracked value at a time (see _trackers): the result is
+        the intersection, over the trackers, of the reachability on the product (block, abstract value)."""
+        out = self._reach_plain(starts, removed, stop)
+        for tr in self._trackers():
+            seen = set()
+            dq = deque((s, '?') for s in starts)
+            while dq:
+                st = dq.popleft()
+                if st in seen:
+                    continue
+                seen.add(st)
+                bi, val = st
+                if bi in stop or bi not in out:
+                    continue
+                blk = self.blocks[bi]
+                val = tr.transfer(self, blk, val)
+                succs = self.succ(bi)
+                only = tr.prune(self, blk, val)
+                if only is not None:
+                    succs = [x for x in succs if x == only] or succs
+                for s_ in succs:
+                    if (bi, s_) in removed:
+                        continue
+                    if (s_, val) not in seen:
+                        dq.append((s_, val))
+            out &= {bi for bi, _ in seen}
+        return out
+
+    def reach_bool(self, starts, removed=frozenset(), stop=frozenset()):
+        return self.reach(starts, removed, stop)
+
+    def _reach_plain(self, starts, removed=frozenset(), stop=frozenset()):
         seen = set()
         dq = deque(starts)
         while dq:
@@ -296,80 +327,11 @@ class Body:
                     dq.append(s)
         return seen
 
-    def reach_bool(self, starts, removed=frozenset(), stop=frozenset()):
-        """Like reach(), but path-sensitive in ONE boolean local at a time: for every bool local that some
-        switch tests and that is assigned a constant on at least one path (the `let c = a && b; if c` /
-        `matches!` shape), reachability is computed on the product (block, value of that local in {T, F, ?}).
-        Returns the intersection over those locals (and plain reach): a block is reported reachable only
-        if it is reachable whichever single flag is tracked."""
-        base = self.reach(starts, removed, stop)
-        tested = set()
-        for b in self.blocks:
-            if not b.cleanup and b.term[0] == 'sw' and b.term[1][0] in ('copy', 'move') and not b.term[1][1][1] \
-                    and self.lty(b.term[1][1][0]) == 'bool':
-                tested.add(b.term[1][1][0])
-                for (_, pl, rv) in b.stmts:
-                    if pl[0] == b.term[1][1][0] and not pl[1] and rv[0] == 'use' and rv[1][0] in ('copy', 'move') and not rv[1][1][1]:
-                        tested.add(rv[1][1][0])
-        out = set(base)
-        for v in tested:
-            consts = False
-            for b in self.blocks:
-                for (_, pl, rv) in b.stmts:
-                    if pl[0] == v and not pl[1] and rv[0] == 'use' and rv[1][0] == 'const' and rv[1][3] is not None:
-                        consts = True
-            if not consts or v in self.const_locals():
-                continue
-            seen = set()
-            dq = deque((s, '?') for s in starts)
-            while dq:
-                st = dq.popleft()
-                if st in seen:
-                    continue
-                seen.add(st)
-                bi, val = st
-                if bi in stop:
-                    continue
-                blk = self.blocks[bi]
-                for (_, pl, rv) in blk.stmts:
-                    if pl[0] == v and not pl[1]:
-                        if rv[0] == 'use' and rv[1][0] == 'const' and rv[1][3] is not None:
-                            val = 'T' if rv[1][3] else 'F'
-                        else:
-                            val = '?'
-                t = blk.term
-                if t[0] == 'call' and t[1].dest[0] == v and not t[1].dest[1]:
-                    val = '?'
-                succs = self.succ(bi)
-                sw_on_v = False
-                if t[0] == 'sw' and t[1][0] in ('copy', 'move') and not t[1][1][1]:
-                    sl = t[1][1][0]
-                    if sl == v:
-                        sw_on_v = True
-                    else:
-                        # `_t = copy v; switchInt(move _t)` in the same block
-                        last = None
-                        for (_, pl, rv) in blk.stmts:
-                            if pl[0] == sl and not pl[1]:
-                                last = rv
-                            elif pl[0] == v and not pl[1]:
-                                last = None if last is not None else last
-                        if last is not None and last[0] == 'use' and last[1][0] in ('copy', 'move') and last[1][1] == (v, ()):
-                            sw_on_v = True
-                if sw_on_v and val != '?':
-                    c = 1 if val == 'T' else 0
-                    tgt = None
-                    for vv, bb in t[2]:
-                        if vv == c:
-                            tgt = bb
-                    succs = [tgt if tgt is not None else t[3]]
-                for s in succs:
-                    if (bi, s) in removed:
-                        continue
-                    if (s, val) not in seen:
-                        dq.append((s, val))
-            out &= {bi for bi, _ in seen}
-        return out
+    def _trackers(self):
+        t = getattr(self, '_trk', None)
+        if t is None:
+            t = self._trk = _build_trackers(self)
+        return t
 
     def live(self):
         l = getattr(self, '_live', None)
@@ -491,6 +453,202 @@ def rvalue_reads(rv):
     return out
 
 
+# ---------------------------------------------------------------- path sensitivity in one value
+
+_PRESERVING = ('::with_context', '::context', '::map_err', '::inspect_err', '::inspect', '::ok_or', '::ok_or_else', 'Result::map', 'Option::map',
+               '::Into>::into', '::From>::from')
+
+
+class _Tracker:
+    """One abstract value followed along a path: 'S' (success variant / true), 'F' (failure variant / false), '?'.
+    `members`: locals that hold THE value (a root plus locals whose every definition is a whole move/copy of a
+    member); `branch`: locals that are Try::branch(member); `discr`: local -> ('m'|'b') discriminant of a member /
+    of a branch result; `cls`: 'result' | 'option' | 'bool'."""
+
+    def __init__(self, cls):
+        self.cls = cls
+        self.members = set()
+        self.via_call = set()       # members defined by a preserving adapter call (their defining call keeps the value)
+        self.branch = set()
+        self.discr = {}
+        self.discr_src = {}
+
+    def _classify(self, rv):
+        if rv[0] == 'use':
+            o = rv[1]
+            if o[0] in ('copy', 'move') and not o[1][1] and o[1][0] in self.members:
+                return None            # unchanged
+            if o[0] == 'const' and self.cls == 'bool' and o[3] is not None:
+                return 'S' if o[3] else 'F'
+            return '?'
+        if rv[0] == 'agg' and rv[1] == 'adt':
+            if self.cls == 'result' and rv[2] == 'std::result::Result':
+                return 'S' if rv[3] == 0 else 'F'
+            if self.cls == 'option' and rv[2] == 'std::option::Option':
+                return 'S' if rv[3] == 1 else 'F'
+        return '?'
+
+    def transfer(self, body, blk, val):
+        for (_, pl, rv) in blk.stmts:
+            if pl[0] in self.members:
+                if pl[1]:
+                    val = '?'
+                else:
+                    v = self._classify(rv)
+                    if v is not None:
+                        val = v
+        t = blk.term
+        if t[0] == 'call' and t[1].dest[0] in self.members:
+            c = t[1]
+            if c.dest[1]:
+                val = '?'
+            elif c.dest[0] in self.via_call:
+                pass
+            elif any(n.endswith('::from_residual') for n in c.names()):
+                val = 'F'
+            elif any(n.endswith('::from_output') for n in c.names()):
+                val = 'S'
+            else:
+                val = '?'
+        elif t[0] == 'yield' and t[3][0] in self.members:
+            val = '?'
+        return val
+
+    def _discr_src(self, body, blk, sl):
+        src = self.discr_src.get(sl)
+        if src is not None:
+            return src
+        for (_, pl, rv) in blk.stmts:
+            if pl[0] == sl and not pl[1] and rv[0] == 'discr':
+                return rv[1][0]
+        return None
+
+    def prune(self, body, blk, val):
+        """the only feasible successor of blk's switch under val, or None"""
+        t = blk.term
+        if val == '?' or t[0] != 'sw' or t[1][0] not in ('copy', 'move') or t[1][1][1]:
+            return None
+        sl = t[1][1][0]
+        want = None
+        kind = None
+        if sl in self.discr:
+            kind = self.discr[sl]
+        elif self.cls == 'bool' and sl in self.members:
+            kind = 'bool'
+        else:
+            # `_t = copy m; switchInt(move _t)` / `_t = discriminant(m)` in the same block
+            for (_, pl, rv) in blk.stmts:
+                if pl[0] == sl and not pl[1]:
+                    if rv[0] == 'use' and rv[1][0] in ('copy', 'move') and not rv[1][1][1] and rv[1][1][0] in self.members and self.cls == 'bool':
+                        kind = 'bool'
+                    elif rv[0] == 'discr' and not rv[1][1] and rv[1][0] in self.members:
+                        kind = 'm'
+                    elif rv[0] == 'discr' and not rv[1][1] and rv[1][0] in self.branch:
+                        kind = 'b'
+                    else:
+                        kind = None
+        if kind is None:
+            return None
+        if kind == 'bool':
+            want = 1 if val == 'S' else 0
+        elif kind == 'b':
+            want = 0 if val == 'S' else 1          # ControlFlow::Continue = 0, Break = 1
+        elif kind == 'm':
+            ty = body.lty(self._discr_src(body, blk, sl)) if self._discr_src(body, blk, sl) is not None else ''
+            ty = ty.lstrip('&').replace('mut ', '')
+            if ty.startswith('std::result::Result<'):
+                want = 0 if val == 'S' else 1
+            elif ty.startswith('std::option::Option<'):
+                want = 1 if val == 'S' else 0
+            else:
+                return None
+        tgt = None
+        for vv, bb in t[2]:
+            if vv == want:
+                tgt = bb
+        return tgt if tgt is not None else t[3]
+
+
+def _build_trackers(body):
+    out = []
+    roots = []
+    # (1) boolean flags assigned a constant on some path and tested by a switch
+    tested = set()
+    for b in body.blocks:
+        if not b.cleanup and b.term[0] == 'sw' and b.term[1][0] in ('copy', 'move') and not b.term[1][1][1] \
+                and body.lty(b.term[1][1][0]) == 'bool':
+            tested.add(b.term[1][1][0])
+            for (_, pl, rv) in b.stmts:
+                if pl[0] == b.term[1][1][0] and not pl[1] and rv[0] == 'use' and rv[1][0] in ('copy', 'move') and not rv[1][1][1]:
+                    tested.add(rv[1][1][0])
+    cl = body.const_locals()
+    for v in sorted(tested):
+        if v in cl:
+            continue
+        has_const = any(pl[0] == v and not pl[1] and rv[0] == 'use' and rv[1][0] == 'const' and rv[1][3] is not None
+                        for b in body.blocks for (_, pl, rv) in b.stmts)
+        if has_const:
+            roots.append((v, 'bool'))
+    # (2) the value returned by a spliced (inlined) fallible helper
+    for (lo, ret_ty) in getattr(body, 'inl', ()):
+        if ret_ty.startswith('std::result::Result<'):
+            roots.append((lo, 'result'))
+        elif ret_ty.startswith('std::option::Option<'):
+            roots.append((lo, 'option'))
+        elif ret_ty == 'bool':
+            roots.append((lo, 'bool'))
+    if not roots:
+        return out
+    # whole-local move/copy definitions
+    defs_by = defaultdict(list)
+    for b in body.blocks:
+        for (_, pl, rv) in b.stmts:
+            if not pl[1]:
+                defs_by[pl[0]].append(rv)
+            else:
+                defs_by[pl[0]].append(('partial',))
+        t = b.term
+        if t[0] == 'call':
+            defs_by[t[1].dest[0]].append(('call', t[1]))
+        elif t[0] == 'yield':
+            defs_by[t[3][0]].append(('yield',))
+    for root, cls in roots:
+        tr = _Tracker(cls)
+        tr.members = {root}
+        changed = True
+        while changed:
+            changed = False
+            for l, ds in defs_by.items():
+                if l in tr.members or l <= body.argc:
+                    continue
+                if ds and all(d[0] == 'use' and d[1][0] in ('copy', 'move') and not d[1][1][1] and d[1][1][0] in tr.members for d in ds):
+                    tr.members.add(l)
+                    changed = True
+                elif len(ds) == 1 and ds[0][0] == 'call' and cls != 'bool':
+                    # success/failure preserving result adapters: x.with_context(..), x.map_err(..), opt.ok_or(..) ...
+                    c = ds[0][1]
+                    if not c.dest[1] and c.args and c.args[0][0] in ('copy', 'move') and not c.args[0][1][1] and c.args[0][1][0] in tr.members \
+                            and any(n.endswith(_PRESERVING) for n in c.names()):
+                        tr.members.add(l)
+                        tr.via_call.add(l)
+                        changed = True
+        for l, ds in defs_by.items():
+            if len(ds) == 1 and ds[0][0] == 'call':
+                c = ds[0][1]
+                if not c.dest[1] and c.args and c.args[0][0] in ('copy', 'move') and not c.args[0][1][1] and c.args[0][1][0] in tr.members \
+                        and any(n.endswith('::Try>::branch') or n.endswith('::Try::branch') for n in c.names()):
+                    tr.branch.add(l)
+        for l, ds in defs_by.items():
+            if len(ds) == 1 and ds[0][0] == 'discr' and not ds[0][1][1]:
+                if ds[0][1][0] in tr.members:
+                    tr.discr[l] = 'm'
+                    tr.discr_src[l] = ds[0][1][0]
+                elif ds[0][1][0] in tr.branch:
+                    tr.discr[l] = 'b'
+        out.append(tr)
+    return out
+
+
 # ---------------------------------------------------------------- units / functions
 
 class Fn:
@@ -606,7 +764,12 @@ class Unit:
         self.fmt = d['fmt']
 
 
+PATTERN_LOG = None      # when a set: every pattern tested is recorded (used to learn a module's named sinks)
+
+
 def glob_match(pat, s):
+    if PATTERN_LOG is not None:
+        PATTERN_LOG.add(pat)
     if '*' not in pat:
         return pat == s
     return _glob_re(pat).match(s) is not None
@@ -653,6 +816,8 @@ class Workspace:
 
     # ---- lookup
     def find_all(self, pat):
+        if PATTERN_LOG is not None:
+            PATTERN_LOG.add(pat)
         if '*' not in pat:
             return list(self.by_name.get(pat, []))
         out = []
@@ -709,6 +874,8 @@ class Workspace:
         cs = self.callers()
         if isinstance(pats, str):
             pats = [pats]
+        if PATTERN_LOG is not None:
+            PATTERN_LOG.update(pats)
         for p in pats:
             if '*' not in p:
                 out.extend(cs.get(p, []))
